@@ -181,7 +181,10 @@ func c06Repeated(c *Ctx) (n int64) {
 			mem := mems[r.Intn(2)]
 			cpu.Memory = mem // sometimes another object (bank switch / restored snapshot)
 			kind := r.Intn(4)
-			pre := cpu.States
+			// the host assigns a complete new state (architectural fields only: whatever
+			// latch an implementation keeps in extra public fields - e.g. an EI delay armed by
+			// a stray FB among the random handler bytes - starts out clear, as in a new States)
+			pre := Arch(cpu.States)
 			pre.IFF1 = true
 			pre.SP = 0x8000 + uint16(r.Intn(0x1000))
 			pre.PC = 0x1000 + uint16(r.Intn(0x6000))
